@@ -4,10 +4,11 @@
 #include "../common/keygen.hpp"
 #include "cpgm.h"
 #include <map>
-#include <omp.h>
 #include <sstream>
 
+#ifdef _OPENMP
 extern "C" int omp_get_num_procs(void) { return 64; }
+#endif
 
 namespace vf {
 
@@ -88,7 +89,7 @@ CaseResult run_static(const RunCtx &ctx, TapeReader &t, unsigned size_hint) {
     }
     if (!ctx.execute) return res;
 
-    omp_set_num_threads(meta.threads);
+    vf_set_threads(meta.threads);
     std::vector<K> data = keys;
     for (size_t i = 0; i < reserved_tail; ++i) data.push_back(std::numeric_limits<K>::max());
     typename C::H *h = nullptr;
